@@ -78,4 +78,21 @@ theorem C05_full_wl_freeze_freezes {s s' : State} {w : Wl} (hw : s.wl = some w) 
     exact ⟨_, rfl, rfl, rfl⟩
   · cases hh
 
+/-! ## Non-vacuity (kernel-evaluated) -/
+
+def exG05 : Nat := Gen.sg_utils_GENESIS_MINT_START_TIME
+
+def exMsg05 : InstMsg :=
+  { admins := [10, 11], adminsMutable := true, start := exG05 + 100, end_ := exG05 + 200, mintPrice := ⟨0, 5⟩, perAddr := 2,
+    memberLimit := 5, whaleCap := none, members := [(20, 0)], stages := [], stageMembers := [], roots := [],
+    uriOk := true, uris := none, discountBps := none }
+
+/-- a stranger's `AddMembers` / `Freeze` / `UpdateAdmins` change nothing; the second admin freezes; afterwards even the first
+admin cannot change the list -/
+example : ((WF.run (WF.init exG05)
+      [.fund 10 ⟨0, 1000000000⟩, .instantiate Variant.plain 10 [⟨0, 100000000⟩] 1000 exMsg05,
+       .exec 30 [] (.addMembers 0 [(21, 0)]), .exec 30 [] .freeze, .exec 30 [] (.updateAdmins [30]),
+       .exec 10 [] (.updateAdmins [10, 11, 12]), .exec 11 [] .freeze, .exec 10 [] (.updateAdmins [10])]).wl.map
+      fun w => (w.admins, w.mutable_, w.numMembers)) = some ([10, 11, 12], false, 1) := by rfl
+
 end LP
